@@ -74,3 +74,531 @@ Example C06_nonvacuous :
   | _ => False
   end.
 Proof. vm_compute. repeat split. Qed.
+
+(* ======================================================================
+   The report renderer (portfolio/render.rs) inside the model:
+   Model/Render.v, proofs in Proofs/RenderProps.v.
+   ====================================================================== *)
+From ACB Require Import Model.CsvFields Proofs.CsvDigits.
+From ACB Require Import Model.Ledger Model.DeltaList Model.App Model.Render Proofs.RenderProps.
+Local Close Scope Z_scope.
+Local Open Scope Qc_scope.
+
+(* Rounding is display-only.  With default options the table is the
+   cell-wise cent rounding of the table printed by --print-full-values, for
+   every arithmetic, delta list, gains record and currency assignment (also
+   when rendering panics: then both do): no rounded figure is an input of any
+   other figure. *)
+Theorem C06_display_only : forall (A : arith) cur ds g,
+  render_table A false cur ds g = map_res round_table (render_table A true cur ds g).
+Proof. exact RenderProps.render_table_display_only. Qed.
+Check C06_display_only : forall (A : arith) cur ds g,
+  render_table A false cur ds g = map_res round_table (render_table A true cur ds g).
+Print Assumptions C06_display_only.
+
+(* the same for the whole report of a run (ledger -> gains -> every security
+   table and the aggregate table) *)
+Theorem C06_display_only_report : forall (A : arith) cur inits rows,
+  render_app A false cur inits rows = map_res round_report (render_app A true cur inits rows).
+Proof. exact RenderProps.render_app_display_only. Qed.
+Check C06_display_only_report : forall (A : arith) cur inits rows,
+  render_app A false cur inits rows = map_res round_report (render_app A true cur inits rows).
+Print Assumptions C06_display_only_report.
+
+(* round_cents q is the integer nearest to 100 q, the one away from zero on a
+   tie; it is the only such integer *)
+Theorem C06_round_cents_spec : forall (q : Qc),
+  ((0 <= q -> QcZ (round_cents q) - Qcfrac 1 2 <= q * QcZ 100 /\ q * QcZ 100 < QcZ (round_cents q) + Qcfrac 1 2) /\
+   (q < 0 -> QcZ (round_cents q) - Qcfrac 1 2 < q * QcZ 100 /\ q * QcZ 100 <= QcZ (round_cents q) + Qcfrac 1 2)) /\
+  (forall n : Z,
+     (0 <= q -> QcZ n - Qcfrac 1 2 <= q * QcZ 100 /\ q * QcZ 100 < QcZ n + Qcfrac 1 2) ->
+     (q < 0 -> QcZ n - Qcfrac 1 2 < q * QcZ 100 /\ q * QcZ 100 <= QcZ n + Qcfrac 1 2) ->
+     n = round_cents q).
+Proof. intros q. split; [exact (RenderProps.round_cents_spec q) | exact (RenderProps.round_cents_unique q)]. Qed.
+Check C06_round_cents_spec : forall (q : Qc),
+  ((0 <= q -> QcZ (round_cents q) - Qcfrac 1 2 <= q * QcZ 100 /\ q * QcZ 100 < QcZ (round_cents q) + Qcfrac 1 2) /\
+   (q < 0 -> QcZ (round_cents q) - Qcfrac 1 2 < q * QcZ 100 /\ q * QcZ 100 <= QcZ (round_cents q) + Qcfrac 1 2)) /\
+  (forall n : Z,
+     (0 <= q -> QcZ n - Qcfrac 1 2 <= q * QcZ 100 /\ q * QcZ 100 < QcZ n + Qcfrac 1 2) ->
+     (q < 0 -> QcZ n - Qcfrac 1 2 < q * QcZ 100 /\ q * QcZ 100 <= QcZ n + Qcfrac 1 2) ->
+     n = round_cents q).
+Print Assumptions C06_round_cents_spec.
+
+(* the text of a cent figure (dollar_precision_str): optional '-', at least
+   one whole digit, '.', exactly two decimals; the digits spell |round_cents q|
+   and the '-' is there iff the ROUNDED figure is negative *)
+Theorem C06_dollar_text_shape : forall (q : Qc),
+  exists (w : list N) (d1 d2 : N),
+    dollar2_text q = (if (round_cents q <? 0)%Z then [45%N] else []) ++ chars w ++ [46%N] ++ chars [d1; d2]
+    /\ Forall (fun d => (d < 10)%N) w /\ w <> [] /\ (d1 < 10)%N /\ (d2 < 10)%N
+    /\ Z.of_N (val w * 100 + d1 * 10 + d2) = Z.abs (round_cents q).
+Proof. exact RenderProps.dollar2_text_shape. Qed.
+Check C06_dollar_text_shape : forall (q : Qc),
+  exists (w : list N) (d1 d2 : N),
+    dollar2_text q = (if (round_cents q <? 0)%Z then [45%N] else []) ++ chars w ++ [46%N] ++ chars [d1; d2]
+    /\ Forall (fun d => (d < 10)%N) w /\ w <> [] /\ (d1 < 10)%N /\ (d2 < 10)%N
+    /\ Z.of_N (val w * 100 + d1 * 10 + d2) = Z.abs (round_cents q).
+Print Assumptions C06_dollar_text_shape.
+
+(* reading the text back (the model of Decimal::from_str used for C11) gives
+   the rounded figure: same sign, same value round_cents q / 100 *)
+Theorem C06_dollar_text_roundtrip : forall (q : Qc),
+  (Z.abs (round_cents q) <= Z.of_N CsvFields.max_mant)%Z ->
+  exists d', parse_dec (dollar2_text q) = Ok d' /\ dec_same (cents_dec q) d' /\
+             d_scale (cents_dec q) = 2%nat /\
+             (if d_neg (cents_dec q) then - Z.of_N (d_mant (cents_dec q)) else Z.of_N (d_mant (cents_dec q)))%Z
+             = round_cents q.
+Proof.
+  intros q H. destruct (RenderProps.dollar2_text_parses q H) as [d' [H1 H2]].
+  destruct (RenderProps.cents_dec_value q) as [H3 H4]. exists d'. auto.
+Qed.
+Check C06_dollar_text_roundtrip : forall (q : Qc),
+  (Z.abs (round_cents q) <= Z.of_N CsvFields.max_mant)%Z ->
+  exists d', parse_dec (dollar2_text q) = Ok d' /\ dec_same (cents_dec q) d' /\
+             d_scale (cents_dec q) = 2%nat /\
+             (if d_neg (cents_dec q) then - Z.of_N (d_mant (cents_dec q)) else Z.of_N (d_mant (cents_dec q)))%Z
+             = round_cents q.
+Print Assumptions C06_dollar_text_roundtrip.
+
+(* The footer: "Total" first, then the years of the gains record, ascending,
+   each once; the figures are the record's total and yearly totals. *)
+Theorem C06_footer_is_gains : forall (A : arith) full cur ds g tb,
+  render_table A full cur ds g = Ok tb ->
+  tb_labels tb = LTotal :: map LYear (years_sorted g) /\
+  Sorted.StronglySorted Z.lt (years_sorted g) /\
+  (forall y, In y (years_sorted g) <-> In y (map fst (g_years g))) /\
+  exists total yv,
+    tb_values tb = total :: yv /\
+    plus_minus A full (g_total g) false = Ok total /\
+    Forall2 (fun y p => plus_minus A full (year_val y (g_years g)) false = Ok p) (years_sorted g) yv.
+Proof. exact RenderProps.footer_is_gains. Qed.
+Check C06_footer_is_gains : forall (A : arith) full cur ds g tb,
+  render_table A full cur ds g = Ok tb ->
+  tb_labels tb = LTotal :: map LYear (years_sorted g) /\
+  Sorted.StronglySorted Z.lt (years_sorted g) /\
+  (forall y, In y (years_sorted g) <-> In y (map fst (g_years g))) /\
+  exists total yv,
+    tb_values tb = total :: yv /\
+    plus_minus A full (g_total g) false = Ok total /\
+    Forall2 (fun y p => plus_minus A full (year_val y (g_years g)) false = Ok p) (years_sorted g) yv.
+Print Assumptions C06_footer_is_gains.
+
+(* with C06_security_totals: in exact arithmetic the footer of a security
+   table shows the sum of the capital gains of its rows and, per settlement
+   year, the sum of the gains of the rows settled in that year *)
+Theorem C06_footer_shows_row_sums : forall full cur ds g tb,
+  security_gains exact gains0 (gain_rows ds) = Ok g ->
+  render_table exact full cur ds g = Ok tb ->
+  tb_labels tb = LTotal :: map LYear (years_sorted g) /\
+  tb_values tb = pm_value full (sum_all (gain_rows ds)) false
+                   :: map (fun y => pm_value full (sum_year y (gain_rows ds)) false) (years_sorted g).
+Proof. exact RenderProps.footer_shows_row_sums. Qed.
+Check C06_footer_shows_row_sums : forall full cur ds g tb,
+  security_gains exact gains0 (gain_rows ds) = Ok g ->
+  render_table exact full cur ds g = Ok tb ->
+  tb_labels tb = LTotal :: map LYear (years_sorted g) /\
+  tb_values tb = pm_value full (sum_all (gain_rows ds)) false
+                   :: map (fun y => pm_value full (sum_year y (gain_rows ds)) false) (years_sorted g).
+Print Assumptions C06_footer_shows_row_sums.
+
+(* the aggregate table: the years ascending, then "Since inception" *)
+Theorem C06_aggregate_is_gains : forall (A : arith) full g rows,
+  render_aggregate A full g = Ok rows ->
+  exists total yv,
+    rows = combine (map LYear (years_sorted g)) yv ++ [(LSince, total)] /\
+    length yv = length (years_sorted g) /\
+    plus_minus A full (g_total g) false = Ok total /\
+    Forall2 (fun y p => plus_minus A full (year_val y (g_years g)) false = Ok p) (years_sorted g) yv.
+Proof. exact RenderProps.aggregate_is_gains. Qed.
+Check C06_aggregate_is_gains : forall (A : arith) full g rows,
+  render_aggregate A full g = Ok rows ->
+  exists total yv,
+    rows = combine (map LYear (years_sorted g)) yv ++ [(LSince, total)] /\
+    length yv = length (years_sorted g) /\
+    plus_minus A full (g_total g) false = Ok total /\
+    Forall2 (fun y p => plus_minus A full (year_val y (g_years g)) false = Ok p) (years_sorted g) yv.
+Print Assumptions C06_aggregate_is_gains.
+
+(* Rendering is total (C05 flavour).  For ANY arithmetic that reports a
+   division by zero only for a zero divisor, rendering never divides by zero
+   (every division is guarded by a positive divisor; split ratios are
+   PosDecimal) and never returns an error; in exact arithmetic it always
+   produces a table; under rust_decimal rounding it can stop only by overflow
+   or because the factor post/pre of a split rounds to zero
+   (PosDecimal::try_from(..).unwrap() in SplitRatio::pre_to_post_factor). *)
+Theorem C06_render_total : forall full cur ds g,
+  forallb split_ok ds = true ->
+  (forall A, arith_ok (fun p => p <> PanicDivZero) A ->
+     render_table A full cur ds g <> Panic PanicDivZero /\
+     (forall e, render_table A full cur ds g <> Rej e) /\
+     render_aggregate A full g <> Panic PanicDivZero) /\
+  (exists tb, render_table exact full cur ds g = Ok tb) /\
+  match render_table Arith.dec full cur ds g with
+  | Ok _ => True
+  | Rej _ => False
+  | Panic p => p = PanicOverflow \/ p = PanicConstraint Site.pos_div
+  end.
+Proof.
+  intros full cur ds g H. split; [|split].
+  - intros A HA. exact (RenderProps.render_no_div_by_zero A full cur ds g HA H).
+  - exact (RenderProps.render_exact_total full cur ds g H).
+  - exact (RenderProps.render_dec_panics full cur ds g H).
+Qed.
+Check C06_render_total : forall full cur ds g,
+  forallb split_ok ds = true ->
+  (forall A, arith_ok (fun p => p <> PanicDivZero) A ->
+     render_table A full cur ds g <> Panic PanicDivZero /\
+     (forall e, render_table A full cur ds g <> Rej e) /\
+     render_aggregate A full g <> Panic PanicDivZero) /\
+  (exists tb, render_table exact full cur ds g = Ok tb) /\
+  match render_table Arith.dec full cur ds g with
+  | Ok _ => True
+  | Rej _ => False
+  | Panic p => p = PanicOverflow \/ p = PanicConstraint Site.pos_div
+  end.
+Print Assumptions C06_render_total.
+
+(* Row i of the table is a function of delta i only (row_of); the table has
+   one row per delta, each of 16 cells; the two legend flags are the only
+   state carried across rows. *)
+Theorem C06_row_local : forall (A : arith) full cur ds g tb,
+  render_table A full cur ds g = Ok tb ->
+  length (tb_rows tb) = length ds /\
+  (forall i d, nth_error ds i = Some d ->
+     exists row, nth_error (tb_rows tb) i = Some row /\ row_of A full cur d = Ok row /\ length row = 16%nat) /\
+  tb_note_sfl tb = existsb row_sfl ds /\ tb_note_over tb = existsb row_over ds.
+Proof.
+  intros A full cur ds g tb H. split; [exact (RenderProps.render_table_length A full cur ds g tb H)|].
+  split.
+  - intros i d Hi. destruct (RenderProps.render_table_row_local A full cur ds g tb i d H Hi) as [row [H1 H2]].
+    exists row. split; [exact H1|]. split; [exact H2|]. exact (RenderProps.row_has_16_cells A full cur d row H2).
+  - exact (proj2 (RenderProps.render_table_rows A full cur ds g tb H)).
+Qed.
+Check C06_row_local : forall (A : arith) full cur ds g tb,
+  render_table A full cur ds g = Ok tb ->
+  length (tb_rows tb) = length ds /\
+  (forall i d, nth_error ds i = Some d ->
+     exists row, nth_error (tb_rows tb) i = Some row /\ row_of A full cur d = Ok row /\ length row = 16%nat) /\
+  tb_note_sfl tb = existsb row_sfl ds /\ tb_note_over tb = existsb row_over ds.
+Print Assumptions C06_row_local.
+
+(* "New ACB/Share" of row i: the post-status cost base of delta i divided by
+   the post-status share balance OF THE ROW'S AFFILIATE (s_sh, not the
+   all-affiliate balance s_all) when that balance is positive; "-" otherwise
+   and for a registered affiliate. *)
+Theorem C06_new_acb_per_share : forall (A : arith) full cur ds g tb i d,
+  render_table A full cur ds g = Ok tb -> nth_error ds i = Some d ->
+  exists row, nth_error (tb_rows tb) i = Some row /\
+    match s_acb (d_post d) with
+    | Some acb =>
+        if Qcltb 0 (s_sh (d_post d)) then
+          exists v, a_div A acb (s_sh (d_post d)) = Ok v /\ cell_at row col_new_acb_share = dollar_str full v
+        else cell_at row col_new_acb_share = CDash
+    | None => cell_at row col_new_acb_share = CDash
+    end.
+Proof.
+  intros A full cur ds g tb i d H Hi.
+  destruct (RenderProps.render_table_row_local A full cur ds g tb i d H Hi) as [row [H1 H2]].
+  exists row. split; [exact H1 | exact (RenderProps.new_acb_per_share_cell A full cur d row H2)].
+Qed.
+Check C06_new_acb_per_share : forall (A : arith) full cur ds g tb i d,
+  render_table A full cur ds g = Ok tb -> nth_error ds i = Some d ->
+  exists row, nth_error (tb_rows tb) i = Some row /\
+    match s_acb (d_post d) with
+    | Some acb =>
+        if Qcltb 0 (s_sh (d_post d)) then
+          exists v, a_div A acb (s_sh (d_post d)) = Ok v /\ cell_at row col_new_acb_share = dollar_str full v
+        else cell_at row col_new_acb_share = CDash
+    | None => cell_at row col_new_acb_share = CDash
+    end.
+Print Assumptions C06_new_acb_per_share.
+
+(* "ACB" (cost of the shares sold) of row i: the PRE-status cost base of
+   delta i per share of the affiliate times the shares sold; "-" when the
+   affiliate's pre-balance is not positive, for a registered affiliate, and
+   on every row that is not a sale. *)
+Theorem C06_acb_of_sale : forall (A : arith) full cur ds g tb i d,
+  render_table A full cur ds g = Ok tb -> nth_error ds i = Some d ->
+  exists row, nth_error (tb_rows tb) i = Some row /\
+    match t_act (d_tx d) with
+    | Sell sh _ _ _ _ _ =>
+        match s_acb (d_pre d) with
+        | Some acb =>
+            if Qcltb 0 (s_sh (d_pre d)) then
+              exists per v, a_div A acb (s_sh (d_pre d)) = Ok per /\ a_mul A per sh = Ok v /\
+                            cell_at row col_acb = dollar_str full v
+            else cell_at row col_acb = CDash
+        | None => cell_at row col_acb = CDash
+        end
+    | _ => cell_at row col_acb = CDash
+    end.
+Proof.
+  intros A full cur ds g tb i d H Hi.
+  destruct (RenderProps.render_table_row_local A full cur ds g tb i d H Hi) as [row [H1 H2]].
+  exists row. split; [exact H1 | exact (RenderProps.acb_of_sale_cell A full cur d row H2)].
+Qed.
+Check C06_acb_of_sale : forall (A : arith) full cur ds g tb i d,
+  render_table A full cur ds g = Ok tb -> nth_error ds i = Some d ->
+  exists row, nth_error (tb_rows tb) i = Some row /\
+    match t_act (d_tx d) with
+    | Sell sh _ _ _ _ _ =>
+        match s_acb (d_pre d) with
+        | Some acb =>
+            if Qcltb 0 (s_sh (d_pre d)) then
+              exists per v, a_div A acb (s_sh (d_pre d)) = Ok per /\ a_mul A per sh = Ok v /\
+                            cell_at row col_acb = dollar_str full v
+            else cell_at row col_acb = CDash
+        | None => cell_at row col_acb = CDash
+        end
+    | _ => cell_at row col_acb = CDash
+    end.
+Print Assumptions C06_acb_of_sale.
+
+(* "Cap. Gain" of row i: the capital gain of delta i; the suffix
+   " * (SfL ...)" is present iff THIS delta is a sale with a superficial loss,
+   and shows this delta's denied amount and ratio, "!" iff the user's value
+   was forced, "[1]" iff potentially over-applied.  No row shows a suffix of
+   another row. *)
+Theorem C06_gain_suffix : forall (A : arith) full cur ds g tb i d,
+  render_table A full cur ds g = Ok tb -> nth_error ds i = Some d ->
+  exists row, nth_error (tb_rows tb) i = Some row /\
+    match t_act (d_tx d), d_gain d with
+    | Sell _ _ _ _ _ _, Some gn =>
+        exists p, plus_minus A full gn false = Ok p /\
+          cell_at row col_gain =
+          CGain p (if row_sfl d then
+                     match d_sfl d with
+                     | Some i =>
+                         match plus_minus A full (sf_amount i) false with
+                         | Ok a => Some {| sn_amt := a; sn_forced := row_forced d; sn_num := sf_num i;
+                                           sn_den := sf_den i; sn_over := sf_over i |}
+                         | _ => None
+                         end
+                     | None => None
+                     end
+                   else None)
+    | _, _ => cell_at row col_gain = CDash
+    end.
+Proof.
+  intros A full cur ds g tb i d H Hi.
+  destruct (RenderProps.render_table_row_local A full cur ds g tb i d H Hi) as [row [H1 H2]].
+  exists row. split; [exact H1 | exact (RenderProps.gain_cell_spec A full cur d row H2)].
+Qed.
+Check C06_gain_suffix : forall (A : arith) full cur ds g tb i d,
+  render_table A full cur ds g = Ok tb -> nth_error ds i = Some d ->
+  exists row, nth_error (tb_rows tb) i = Some row /\
+    match t_act (d_tx d), d_gain d with
+    | Sell _ _ _ _ _ _, Some gn =>
+        exists p, plus_minus A full gn false = Ok p /\
+          cell_at row col_gain =
+          CGain p (if row_sfl d then
+                     match d_sfl d with
+                     | Some i =>
+                         match plus_minus A full (sf_amount i) false with
+                         | Ok a => Some {| sn_amt := a; sn_forced := row_forced d; sn_num := sf_num i;
+                                           sn_den := sf_den i; sn_over := sf_over i |}
+                         | _ => None
+                         end
+                     | None => None
+                     end
+                   else None)
+    | _, _ => cell_at row col_gain = CDash
+    end.
+Print Assumptions C06_gain_suffix.
+
+(* Legends.  For the deltas of a ledger run (any arithmetic): the notes
+   contain the SfL legend iff some row of the table shows the suffix, and the
+   [1] legend iff some row shows the [1]. *)
+Theorem C06_notes_iff_suffix : forall (A : arith) full cur init txs ds o g tb,
+  run A init txs = (ds, o) -> render_table A full cur ds g = Ok tb ->
+  tb_note_sfl tb = existsb (fun row => cell_has_suffix (cell_at row col_gain)) (tb_rows tb) /\
+  tb_note_over tb = existsb (fun row => cell_has_over (cell_at row col_gain)) (tb_rows tb).
+Proof. exact RenderProps.ledger_notes_iff_suffix. Qed.
+Check C06_notes_iff_suffix : forall (A : arith) full cur init txs ds o g tb,
+  run A init txs = (ds, o) -> render_table A full cur ds g = Ok tb ->
+  tb_note_sfl tb = existsb (fun row => cell_has_suffix (cell_at row col_gain)) (tb_rows tb) /\
+  tb_note_over tb = existsb (fun row => cell_has_over (cell_at row col_gain)) (tb_rows tb).
+Print Assumptions C06_notes_iff_suffix.
+
+(* for ANY delta list: a row showing the suffix / the [1] implies the legend *)
+Theorem C06_suffix_implies_note : forall (A : arith) full cur ds g tb i row,
+  render_table A full cur ds g = Ok tb -> nth_error (tb_rows tb) i = Some row ->
+  (cell_has_suffix (cell_at row col_gain) = true -> tb_note_sfl tb = true) /\
+  (cell_has_over (cell_at row col_gain) = true -> tb_note_over tb = true).
+Proof. exact RenderProps.suffix_implies_note. Qed.
+Check C06_suffix_implies_note : forall (A : arith) full cur ds g tb i row,
+  render_table A full cur ds g = Ok tb -> nth_error (tb_rows tb) i = Some row ->
+  (cell_has_suffix (cell_at row col_gain) = true -> tb_note_sfl tb = true) /\
+  (cell_has_over (cell_at row col_gain) = true -> tb_note_over tb = true).
+Print Assumptions C06_suffix_implies_note.
+
+(* What the code does with a negative figure that rounds to zero: the sign is
+   taken from the unrounded value, so -0.001 is shown as "-$0.00". *)
+Theorem C06_negative_zero_shown :
+  plus_minus exact false (Qcfrac (-1) 1000) false
+  = Ok {| pm_sign := SNeg; pm_amt := AText [48%N; 46%N; 48%N; 48%N] |}.
+Proof. exact RenderProps.negative_zero_is_shown. Qed.
+Check C06_negative_zero_shown :
+  plus_minus exact false (Qcfrac (-1) 1000) false
+  = Ok {| pm_sign := SNeg; pm_amt := AText [48%N; 46%N; 48%N; 48%N] |}.
+Print Assumptions C06_negative_zero_shown.
+
+(* ---- non-vacuity ---- *)
+Definition ex_cur (t : tx) : bytes * bytes := (s_cad, s_cad).
+Definition ex_aff : aff := {| af_id := 1001; af_reg := false; af_dflt := false |}.
+(* a sale of 3 of the affiliate's 4 shares (100 over all affiliates), cost
+   base 10, with a forced, over-applied superficial loss of -3.004 (2/3) and
+   a remaining capital gain of -0.005 *)
+Definition ex_sale : delta :=
+  {| d_tx := {| t_sec := 0; t_td := 737424%Z; t_sd := 737425%Z;
+                t_act := Sell (QcZ 3) (Qcfrac 2005 1000) 0 1 1 (Some (Qcfrac (-3004) 1000, true));
+                t_af := ex_aff; t_glob := false; t_ri := 0 |};
+     d_pre := {| s_sh := QcZ 4; s_all := QcZ 100; s_acb := Some (QcZ 10) |};
+     d_post := {| s_sh := QcZ 1; s_all := QcZ 97; s_acb := Some (Qcfrac 25 10) |};
+     d_gain := Some (Qcfrac (-5) 1000);
+     d_sfl := Some {| sf_amount := Qcfrac (-3004) 1000; sf_num := QcZ 2; sf_den := QcZ 3; sf_over := true |} |}.
+(* a later sale without a superficial loss *)
+Definition ex_sale2 : delta :=
+  {| d_tx := {| t_sec := 0; t_td := 737500%Z; t_sd := 737502%Z;
+                t_act := Sell (QcZ 1) (QcZ 3) 0 1 1 None;
+                t_af := ex_aff; t_glob := false; t_ri := 1 |};
+     d_pre := {| s_sh := QcZ 1; s_all := QcZ 97; s_acb := Some (Qcfrac 25 10) |};
+     d_post := {| s_sh := 0; s_all := QcZ 96; s_acb := Some 0 |};
+     d_gain := Some (Qcfrac 5 10);
+     d_sfl := None |}.
+Definition ex_gains : gains :=
+  {| g_total := Qcfrac 495 1000; g_years := [(2020%Z, Qcfrac 495 1000)] |}.
+Definition txt (c : cell) : option bytes :=
+  match c with CDollar (AText s) => Some s | CGain p _ => match pm_amt p with AText s => Some s | _ => None end
+          | _ => None end.
+
+Example C06_render_nonvacuous :
+  forallb split_ok [ex_sale; ex_sale2] = true /\
+  match render_table exact false ex_cur [ex_sale; ex_sale2] ex_gains with
+  | Ok tb =>
+      match tb_rows tb with
+      | [r1; r2] =>
+          (* 2.5 / 1, not 2.5 / 97 *)
+          txt (cell_at r1 col_new_acb_share) = Some [50; 46; 53; 48]%N /\
+          (* 10 / 4 * 3 from the pre-status *)
+          txt (cell_at r1 col_acb) = Some [55; 46; 53; 48]%N /\
+          (* -0.005 rounds away from zero: "-$0.01", with suffix "SfL -$3.00!; 2/3[1]" *)
+          txt (cell_at r1 col_gain) = Some [48; 46; 48; 49]%N /\
+          option_map sn_forced (cell_suffix (cell_at r1 col_gain)) = Some true /\
+          option_map sn_over (cell_suffix (cell_at r1 col_gain)) = Some true /\
+          option_map (fun n => pm_amt (sn_amt n)) (cell_suffix (cell_at r1 col_gain))
+            = Some (AText [51; 46; 48; 48]%N) /\
+          (* the later sale carries no suffix; no balance left: "-" *)
+          cell_suffix (cell_at r2 col_gain) = None /\
+          cell_at r2 col_new_acb_share = CDash /\
+          txt (cell_at r2 col_acb) = Some [50; 46; 53; 48]%N
+      | _ => False
+      end /\
+      tb_note_sfl tb = true /\ tb_note_over tb = true /\
+      tb_labels tb = [LTotal; LYear 2020%Z] /\
+      map pm_sign (tb_values tb) = [SNone; SNone] /\
+      map pm_amt (tb_values tb) = [AText [48; 46; 53; 48]%N; AText [48; 46; 53; 48]%N]
+  | _ => False
+  end.
+Proof. vm_compute. repeat split. Qed.
+
+Example C06_round_cents_nonvacuous :
+  round_cents (Qcfrac 1005 1000) = 101%Z /\ round_cents (Qcfrac (-1005) 1000) = (-101)%Z /\
+  round_cents (Qcfrac 1004999 1000000) = 100%Z /\ round_cents (Qcfrac (-1) 1000) = 0%Z /\
+  dollar2_text (Qcfrac (-1) 1000) = [48; 46; 48; 48]%N /\
+  dollar2_text (Qcfrac 123456785 1000) = [49; 50; 51; 52; 53; 54; 46; 55; 57]%N /\
+  dollar2_text (Qcfrac (-5) 1000) = [45; 48; 46; 48; 49]%N.
+Proof. vm_compute. repeat split. Qed.
+
+(* rendering under rust_decimal rounding does stop by overflow, and a split
+   whose factor rounds to zero stops it too *)
+Definition ex_split : delta :=
+  {| d_tx := {| t_sec := 0; t_td := 737424%Z; t_sd := 737425%Z;
+                t_act := Split (Qcfrac 1 100000000000000) (QcZ 1000000000000000) false;
+                t_af := ex_aff; t_glob := false; t_ri := 0 |};
+     d_pre := {| s_sh := 0; s_all := 0; s_acb := Some 0 |};
+     d_post := {| s_sh := 0; s_all := 0; s_acb := Some 0 |};
+     d_gain := None; d_sfl := None |}.
+Example C06_render_total_nonvacuous :
+  forallb split_ok [ex_split] = true /\
+  render_table Arith.dec false ex_cur [ex_split] gains0 = Panic (PanicConstraint Site.pos_div) /\
+  is_ok (render_table exact false ex_cur [ex_split] gains0) = true /\
+  render_aggregate Arith.dec false {| g_total := QcZ (-79228162514264337593543950335); g_years := [] |}
+    = Ok [(LSince, {| pm_sign := SNeg;
+                      pm_amt := AText [55; 57; 50; 50; 56; 49; 54; 50; 53; 49; 52; 50; 54; 52; 51; 51; 55; 53; 57;
+                                       51; 53; 52; 51; 57; 53; 48; 51; 51; 53; 46; 48; 48]%N |})].
+Proof. vm_compute. repeat split. Qed.
+
+(* The whole report (ledger output -> gains -> tables), exact arithmetic: in
+   every security table the Total is the sum of the capital gains of ITS rows
+   and each year's figure the sum of the gains of its rows settled in that
+   year (the years shown: ascending, exactly the settlement years with a
+   gain); a rejected security shows its partial rows with "Total $0". *)
+Theorem C06_report_totals : forall full cur secs rep,
+  render_results exact full cur secs = Ok rep ->
+  Forall2 (fun (x : sec_result) (y : N * option stop * table) =>
+             fst (fst y) = fst x /\
+             let rows := gain_rows (fst (snd x)) in
+             match snd (snd x) with
+             | None =>
+                 exists g, security_gains exact gains0 rows = Ok g /\
+                   tb_labels (snd y) = LTotal :: map LYear (years_sorted g) /\
+                   tb_values (snd y) = pm_value full (sum_all rows) false
+                                         :: map (fun yr => pm_value full (sum_year yr rows) false) (years_sorted g)
+             | Some _ =>
+                 tb_labels (snd y) = [LTotal] /\ tb_values (snd y) = [pm_value full 0 false]
+             end)
+          secs (rp_tables rep).
+Proof. exact RenderProps.report_totals_are_row_sums. Qed.
+Check C06_report_totals : forall full cur secs rep,
+  render_results exact full cur secs = Ok rep ->
+  Forall2 (fun (x : sec_result) (y : N * option stop * table) =>
+             fst (fst y) = fst x /\
+             let rows := gain_rows (fst (snd x)) in
+             match snd (snd x) with
+             | None =>
+                 exists g, security_gains exact gains0 rows = Ok g /\
+                   tb_labels (snd y) = LTotal :: map LYear (years_sorted g) /\
+                   tb_values (snd y) = pm_value full (sum_all rows) false
+                                         :: map (fun yr => pm_value full (sum_year yr rows) false) (years_sorted g)
+             | Some _ =>
+                 tb_labels (snd y) = [LTotal] /\ tb_values (snd y) = [pm_value full 0 false]
+             end)
+          secs (rp_tables rep).
+Print Assumptions C06_report_totals.
+
+(* the pipeline on two rows: buy 2 at 10.005 on 2019-12-30, sell 1 at 12 settling
+   2020-01-02: gain 1.995 in 2020, shown "$2.00" (tie away from zero) *)
+Definition ex_tx (day : Z) (ri : N) (a : action) : tx :=
+  {| t_sec := 0; t_td := day; t_sd := day; t_act := a; t_af := default_aff; t_glob := false; t_ri := ri |}.
+Example C06_report_nonvacuous :
+  match render_app exact false ex_cur []
+          [ex_tx 737423 0 (Buy (QcZ 2) (Qcfrac 10005 1000) 0 1 1);
+           ex_tx 737426 1 (Sell (QcZ 1) (QcZ 12) 0 1 1 None)] with
+  | Ok rep =>
+      match rp_tables rep with
+      | [(s, None, tb)] =>
+          s = 0%N /\ length (tb_rows tb) = 2%nat /\ tb_labels tb = [LTotal; LYear 2020%Z] /\
+          map pm_amt (tb_values tb) = [AText [50; 46; 48; 48]%N; AText [50; 46; 48; 48]%N] /\
+          map (fun r => txt (cell_at r col_new_acb_share)) (tb_rows tb)
+            = [Some [49; 48; 46; 48; 49]%N; Some [49; 48; 46; 48; 49]%N]
+      | _ => False
+      end /\
+      map (fun x => (fst x, pm_amt (snd x))) (rp_aggregate rep)
+        = [(LYear 2020%Z, AText [50; 46; 48; 48]%N); (LSince, AText [50; 46; 48; 48]%N)]
+  | _ => False
+  end.
+Proof. vm_compute. repeat split. Qed.
+
+(* Every dollar figure of the default view (rows and footer) is a cent text,
+   i.e. dollar2_text of some figure: byte-for-byte determined by values. *)
+Theorem C06_default_view_is_cent_text : forall (A : arith) cur ds g tb,
+  render_table A false cur ds g = Ok tb ->
+  Forall (Forall (fun c => forallb is_text (cell_amounts c) = true)) (tb_rows tb) /\
+  Forall (fun p => is_text (pm_amt p) = true) (tb_values tb).
+Proof. exact RenderProps.default_view_is_cent_text. Qed.
+Check C06_default_view_is_cent_text : forall (A : arith) cur ds g tb,
+  render_table A false cur ds g = Ok tb ->
+  Forall (Forall (fun c => forallb is_text (cell_amounts c) = true)) (tb_rows tb) /\
+  Forall (fun p => is_text (pm_amt p) = true) (tb_values tb).
+Print Assumptions C06_default_view_is_cent_text.
